@@ -344,6 +344,12 @@ def random_keys(nb0, nb1, b0, b1, c0, c1, seed):
         f(x, numblocks=nb, root_seed=seed, block_id=(c0, c1))
     except ValueError as ex:
         raise sx.Violated("block-seed-outside-the-valid-key-range", f"seed {seed}, blocks {nb}: {ex}") from ex
+    except TypeError as ex:
+        # the code handled the symbolic seed in a way integer proxies cannot follow (bit operations, NumPy conversion): undecided here --
+        # random-state-independence decides the same code on concrete seeds
+        raise anp.Unsupported(f"key arithmetic outside the integer model: {ex}") from ex
+    if len(RNG_LOG) != 3:
+        raise anp.Unsupported(f"{len(RNG_LOG)} draws recorded for 3 block executions")
     k1, k2, k3 = RNG_LOG
     sx.require(k1 == k2, "re-executed-block-draws-a-different-stream")
     same_block = sx.sand(b0 == c0, b1 == c1)
